@@ -181,6 +181,20 @@ def probe(ctx, label, call, nt=True):
 
 
 def run(ctx):
+    # functions that draw a picture (visualize) write it to the current directory by default: probe from a scratch directory
+    import tempfile
+
+    cwd = os.getcwd()
+    scratch = tempfile.mkdtemp(prefix="c16_cwd_")
+    os.chdir(scratch)
+    try:
+        _run(ctx)
+    finally:
+        os.chdir(cwd)
+        shutil.rmtree(scratch, ignore_errors=True)
+
+
+def _run(ctx):
     import cubed
     import cubed.array_api as xp
     import cubed.random
